@@ -30,7 +30,11 @@ class Stack:
     """platform: 'ledger' (HSM2Dongle over fake HID), 'sgx' (HSM2DongleSGX over
     fake socket), 'tcp' (HSM2DongleTCP over fake socket)."""
 
-    def __init__(self, device, version_one=False, pin=None, platform=None, iodebug=False):
+    def __init__(self, device, version_one=False, pin=None, platform=None, iodebug=False,
+                 loglevel="DEBUG"):
+        # loglevel: the manager always runs with logging configured (shipped logging.cfg:
+        # everything down to DEBUG is formatted); "INFO" is a quieter operator's file
+        env.logging_as_shipped(loglevel)
         # iodebug: the manager's -D / --iodebug option (low-level I/O traces; what the
         # transport prints goes to a sink)
         self.iodebug = iodebug
